@@ -19,6 +19,7 @@ package olla
 
 //@ func (cb *circuitBreaker) IsOpen
 //@   property C08 C04
+//@   safety
 //@   records isOpenCount = old(isOpenCount) + 1
 //@   records lastIsOpen = res
 //@   modifies cb.state
@@ -28,11 +29,13 @@ package olla
 
 //@ func (cb *circuitBreaker) RecordSuccess
 //@   property C08
+//@   safety
 //@   modifies cb.failures, cb.state
 //@   ensures cb.failures == 0 && cb.state == 0
 
 //@ func (cb *circuitBreaker) RecordFailure
 //@   property C08
+//@   safety
 //@   modifies cb.failures, cb.lastFailure, cb.state
 //@   ensures cb.failures == old(cb.failures) + 1
 //@   ensures cb.lastFailure == now && now >= old(now)
@@ -169,6 +172,7 @@ package olla
 // ProxyFunc contract the retry loop relies on (requires about the captured s and rlog hold where the literal is made)
 //@ func (s *Service) ProxyRequestToEndpointsWithRetry$1
 //@   property C02 C05 C19
+//@   safety
 //@   requires s != nil && s.BaseProxyComponents != nil && s.configuration != nil && w != nil && rlog != nil && r != nil && r.URL != nil && endpoint != nil && endpoint.URL != nil && stats != nil && ctx != nil
 //@   requires !ghost(w).started && ghost(w).hdr != nil && breakersOK(s)
 //@   modifies *
